@@ -36,6 +36,8 @@ CASES = [
  ("C03", "basic/topn.py", "            n = self.config.n or -1", "            n = self.config.n if self.config.n is not None else -1", "break"),
  ("C03", "basic/history.py", "        if query.user_id is None:\n            return query\n\n        if query.user_items is None:", "        if query.user_id and query.user_items is None:", "break"),
  ("C03", "basic/history.py", "        if query.user_id is None:\n            return query\n\n        if query.user_items is None:", "        if query.user_id is not None and query.user_items is None:", "keep"),
+ ("C05", "data/builder.py", "        if max_time is not None:\n            max_time = _conform_time", "        if max_time:\n            max_time = _conform_time", "break"),
+ ("C07", "metrics/bulk.py", "    if default is None:\n        if isinstance(m, ListMetric):", "    if not default:\n        if isinstance(m, ListMetric):", "break"),
  ("C05", "splitting/records.py", "        return crossfold_records(data, repeats, test_only=test_only, rng=rng)", "        return crossfold_records(data, repeats, test_only=test_only)", "break"),
  ("C05", "splitting/users.py", "        return crossfold_users(data, repeats, method, test_only=test_only, rng=rng)", "        return crossfold_users(data, repeats, method, rng=rng)", "break"),
  ("C05", "splitting/records.py", "    if repeats is None:\n        test_pos", "    if not repeats:\n        test_pos", "break"),
